@@ -23,3 +23,49 @@ def configs(tier):
 
 
 make = session.make
+
+
+def hashseed_configs(tier):
+    c = [session._base('hs_s3_ls', assets=['EQ:A', 'EQ:B', 'EQ:C'], long_only=False, leverage=1.0, weights={'EQ:A': 0.1, 'EQ:B': -0.2, 'EQ:C': 0.3},
+                       weekday='TUE', nd=3, oracle='C18',
+                       bound='3 assets long/short (0.1,-0.2,0.3), leverage 1, weekly TUE, 3 days; explored under different PYTHONHASHSEED values'),
+         session._base('hs_s2_dynamic_signals', assets=['EQ:A', 'EQ:B'], universe='dynamic', entries={'EQ:A': '2020-01-07 00:00', 'EQ:B': '2020-01-07 00:00'},
+                       alpha='sma_trend', nd=4, oracle='C18', bound='2 assets entering a dynamic universe together, SMA signals, trend alpha, 4 days')]
+    if tier == 'thorough':
+        c.append(session._base('hs_s3_lo', assets=['EQ:A', 'EQ:B', 'EQ:C'], weights={'EQ:A': 0.1, 'EQ:B': 0.2, 'EQ:C': 0.3}, weekday='TUE', nd=3, oracle='C18',
+                               bound='3 assets long-only (0.1,0.2,0.3), weekly TUE, 3 days'))
+    return c
+
+
+def main(tier, seed, workers):
+    import json, os, hashlib
+    from vf.engine import driver
+    from vf.props import hashseed
+    v, problems, stats = hashseed.check(hashseed_configs(tier), tier)
+    code = driver.run_property('C18', 'vf.props.c18', tier, seed=seed, workers=workers, extra_evidence=dict(hash_seed_interpreters=stats, hash_seed_problems=problems))
+    out = os.environ.get('VERIF_OUT', driver.ROOT)
+    for x in v:
+        os.makedirs(os.path.join(out, 'replays', 'C18'), exist_ok=True)
+        h = hashlib.sha256(json.dumps(x, sort_keys=True, default=str).encode()).hexdigest()[:12]
+        p = os.path.join(out, 'replays', 'C18', 'hashseed_%s.json' % h)
+        json.dump(dict(property='C18', kind='hashseed', **x), open(p, 'w'), indent=1, default=str)
+        print('VIOLATION property=C18 replay=%s   (%s under seeds %s: first difference %s)' % (p, x['config']['name'], x['seeds'], x['first_difference']))
+    if v:
+        _patch_evidence(out, len(v))
+        return 1
+    if problems and code == 0:
+        for pr in problems[:5]:
+            print('INCONCLUSIVE: ' + pr)
+        return 2
+    return code
+
+
+def _patch_evidence(out, n):
+    import json, os
+    p = os.path.join(out, 'evidence', 'C18.json')
+    try:
+        ev = json.load(open(p))
+        ev['violations'] = ev.get('violations', 0) + n
+        json.dump(ev, open(p, 'w'), indent=1)
+    except Exception:
+        pass
